@@ -87,6 +87,55 @@ def run(ctx):
                 break
         ctx.count('schedule-pairs')
     gloo_stream(ctx)
+    neox_stream(ctx)
+
+
+def neox_stream(ctx):
+    """the GPT-NeoX path is a distributed run too: the real GPTNeoXKFACPreconditioner on a simulated 3-D topology, with
+    training iterations and checkpoints (in memory and to a directory); the trace matcher evaluates the statement on the
+    recorded traces (the exact script comparison of this path is part of C11)"""
+    import os
+    import shutil
+    import neoxsim
+    from common import OUT
+    rng = ctx.rng
+
+    class W:
+        pass
+    for i in range(ctx.budget(10, 80)):
+        while True:
+            cfg = neoxsim.NCfg(rng)
+            if cfg.world <= 8:
+                break
+        cfg.ops = ['f1', 's'] * rng.randrange(1, 3)
+        if i < 3:
+            # directed: first checkpoint into a directory that does not exist yet, small world, many interleavings
+            cfg = neoxsim.NCfg(rng, pp=1, dp=rng.choice([2, 3]), mp=rng.choice([1, 2]), blocks=1)
+            cfg.ops = ['f1', 's', 'v', 'f1', 's', 'v']
+            cfg.ckpt_dir = os.path.join(OUT, 'neox_ckpt_c03', f'case{i}')
+            shutil.rmtree(cfg.ckpt_dir, ignore_errors=True)
+        elif rng.random() < 0.6:
+            cfg.ops += [rng.choice(['v', 'v', 'l1'])] + ['f1', 's'] * rng.randrange(0, 2)
+            if rng.random() < 0.5:
+                cfg.ckpt_dir = os.path.join(OUT, 'neox_ckpt_c03', f'case{i}')
+                shutil.rmtree(cfg.ckpt_dir, ignore_errors=True)
+        # (directory checkpoints touch the file system between collectives: several interleavings each)
+        for rep in range((10 if i < 3 else 4) if cfg.ckpt_dir else 1):
+            sseed = ctx.seed * 271 + i + 7919 * rep
+            rr = neoxsim.run_real(cfg, sseed)
+            case = dict(cfg.describe(), sched_seed=sseed, stream='gpt-neox')
+            wcfg = W()
+            wcfg.world = cfg.world
+            wcfg.describe = lambda case=case: case
+            f = neoxsim.run_failed(rr)
+            if f and not (cfg.mp > 1 and any(o == 'l1' for o in cfg.ops)):     # (resume with model parallelism: finding F2 of C18)
+                ctx.fail(f'GPT-NeoX run failed: {f}', case, 'neox-run-failed')
+            elif not f:
+                kfacsim.oracle_trace(ctx, wcfg, rr, key_prefix='neox-trace')
+            if cfg.ckpt_dir:
+                shutil.rmtree(cfg.ckpt_dir, ignore_errors=True)
+        ctx.case(str(case), nontrivial=cfg.world > 1)
+        ctx.count('gpt-neox')
 
 
 def gloo_stream(ctx):
